@@ -26,7 +26,7 @@ RULES_DOC.update({
     "R5": "= C06.R1-R4: blocked counter balance of all post-switch callbacks",
     "R6": "after a returning switch the local stream pointer is re-read before use / return",
 })
-VARIANTS = ["no_ext_thread", "active_wait"]
+VARIANTS = ["no_ext_thread", "active_wait", "tool_interface"]
 YH = "src/include/abti_ythread.h"
 Y = "src/ythread.c"
 
